@@ -111,4 +111,22 @@ ContextBound ==
         lead  == Cardinality({j \in 1 .. Len(L) : \A i \in 1 .. j : L[i][1] = "C"})
         trail == Cardinality({j \in 1 .. Len(L) : \A i \in j .. Len(L) : L[i][1] = "C"})
     IN lead <= R.ctx /\ trail <= R.ctx
+
+Names == {"HunkConsistent", "Ordered", "EmptyIff", "NoEmptyHunk", "ApplyOK", "RoundTrip",
+          "ChunksFromHunks", "HunksRebuild", "JsonOK", "CheckstyleOK", "ContextBound"}
+Holds(n) ==
+  CASE n = "HunkConsistent" -> HunkConsistent
+    [] n = "Ordered" -> Ordered
+    [] n = "EmptyIff" -> EmptyIff
+    [] n = "NoEmptyHunk" -> NoEmptyHunk
+    [] n = "ApplyOK" -> ApplyOK
+    [] n = "RoundTrip" -> RoundTrip
+    [] n = "ChunksFromHunks" -> ChunksFromHunks
+    [] n = "HunksRebuild" -> HunksRebuild
+    [] n = "JsonOK" -> JsonOK
+    [] n = "CheckstyleOK" -> CheckstyleOK
+    [] n = "ContextBound" -> ContextBound
+ReportInv ==
+  LET F == {n \in Names : ~Holds(n)}
+  IN F = {} \/ PrintT(ToJson([tag |-> "FAIL", l |-> l, fails |-> F]))
 =============================================================================
